@@ -1,19 +1,108 @@
-(* Props/C04Search.v - C04, order of search results: the open finding F-SEARCHTIE on the model.
-   Two servers holding the same three notes - one started on them, one in which two of them were
-   created later in the other order - answer the empty search with the two equally ranked paths to
-   the same section in opposite orders (SearchTie.v; the per-run check compares the model's search
-   with Database::global_search after every step, stage 9, and classifies such histories as class 3).
+(* Props/C04Search.v - C04, order of search results: the former finding F-SEARCHTIE is repaired (Graph::search_paths breaks ties by search text, line and the texts of the chain). The comparator is a total order on what an entry says (C04_search_order_antisym, C04_search_ties); two states whose search entries have the same contents - two histories - answer every query alike, position by position (C04_search_content); the witness of the finding (three notes, started on them / two of them created later in the other order) and a pair that differs in the chain only answer alike after both histories (C04_search_tie_repaired, C04_search_chain_tie). The per-run check compares the model's search with Database::global_search after every step (stage 9) and incremental with fresh (sub-property 6); no class excuses a difference
    Only statements, each closed by an `exact`, pinned by a `Check`, followed by `Print Assumptions`. *)
-From Coq Require Import ZArith List.
-From IweV Require Import Str Text Ast RelPath Arena Project Library Index Paths SearchTie.
+From Coq Require Import ZArith Permutation List.
+From IweV Require Import Str Text Ast RelPath Arena Project Library Index Paths PathsFacts Determinism2 SearchTie.
 Local Open Scope string_scope.
 Local Open Scope list_scope.
 
-Theorem C04_search_tie_refuted :
-  search_view tie_fresh  = Ok [(2, "z", "bb t"); (2, "z", "aa t"); (0, "b", "bb"); (0, "f", "aa")] /\
-  search_view tie_edited = Ok [(2, "z", "aa t"); (2, "z", "bb t"); (0, "b", "bb"); (0, "f", "aa")].
-Proof. exact search_tie_refuted. Qed.
-Check C04_search_tie_refuted :
-  search_view tie_fresh  = Ok [(2, "z", "bb t"); (2, "z", "aa t"); (0, "b", "bb"); (0, "f", "aa")] /\
-  search_view tie_edited = Ok [(2, "z", "aa t"); (2, "z", "bb t"); (0, "b", "bb"); (0, "f", "aa")].
-Print Assumptions C04_search_tie_refuted.
+Theorem C04_search_tie_repaired :
+  search_view tie_fresh =
+         Ok [(2, "z", "aa t"); (2, "z", "bb t"); (0, "b", "bb"); (0, "f", "aa")] /\
+         search_view tie_edited =
+         Ok [(2, "z", "aa t"); (2, "z", "bb t"); (0, "b", "bb"); (0, "f", "aa")].
+Proof. exact SearchTie.search_tie_repaired. Qed.
+Check C04_search_tie_repaired :
+  search_view tie_fresh =
+         Ok [(2, "z", "aa t"); (2, "z", "bb t"); (0, "b", "bb"); (0, "f", "aa")] /\
+         search_view tie_edited =
+         Ok [(2, "z", "aa t"); (2, "z", "bb t"); (0, "b", "bb"); (0, "f", "aa")].
+Print Assumptions C04_search_tie_repaired.
+
+Theorem C04_search_chain_tie :
+  exists names : list string,
+           symbol_view chain_fresh = Ok names /\
+           symbol_view chain_edited = Ok names /\ firstn 2 names = ["a • b • c"; "a b • c"].
+Proof. exact SearchTie.search_chain_tie. Qed.
+Check C04_search_chain_tie :
+  exists names : list string,
+           symbol_view chain_fresh = Ok names /\
+           symbol_view chain_edited = Ok names /\ firstn 2 names = ["a • b • c"; "a b • c"].
+Print Assumptions C04_search_chain_tie.
+
+Theorem C04_search_content :
+  forall (qe : bool) (score : string -> Z) (s s' : gstate) (ps ps' : list (list nat))
+           (l l' : list sentry),
+         sp_entries s ps = Ok l ->
+         sp_entries s' ps' = Ok l' ->
+         Permutation (map sp_view l) (map sp_view l') ->
+         exists r r' : list spath,
+           search_paths_of s ps = Ok r /\
+           search_paths_of s' ps' = Ok r' /\
+           map (sp_obs (gr_arena (gs_graph s))) r = map (sp_obs (gr_arena (gs_graph s'))) r' /\
+           map (sp_obs (gr_arena (gs_graph s)))
+             (global_search qe (map (fun p : spath => (p, score (sp_text p))) r)) =
+           map (sp_obs (gr_arena (gs_graph s')))
+             (global_search qe (map (fun p : spath => (p, score (sp_text p))) r')).
+Proof. exact SearchTie.search_content. Qed.
+Check C04_search_content :
+  forall (qe : bool) (score : string -> Z) (s s' : gstate) (ps ps' : list (list nat))
+           (l l' : list sentry),
+         sp_entries s ps = Ok l ->
+         sp_entries s' ps' = Ok l' ->
+         Permutation (map sp_view l) (map sp_view l') ->
+         exists r r' : list spath,
+           search_paths_of s ps = Ok r /\
+           search_paths_of s' ps' = Ok r' /\
+           map (sp_obs (gr_arena (gs_graph s))) r = map (sp_obs (gr_arena (gs_graph s'))) r' /\
+           map (sp_obs (gr_arena (gs_graph s)))
+             (global_search qe (map (fun p : spath => (p, score (sp_text p))) r)) =
+           map (sp_obs (gr_arena (gs_graph s')))
+             (global_search qe (map (fun p : spath => (p, score (sp_text p))) r')).
+Print Assumptions C04_search_content.
+
+Theorem C04_search_content_applies :
+  exists (s s' : gstate) (ps ps' : list (list nat)) (l l' : list sentry),
+           tie_fresh = Ok s /\
+           tie_edited = Ok s' /\
+           graph_to_paths true s = Ok ps /\
+           graph_to_paths true s' = Ok ps' /\
+           sp_entries s ps = Ok l /\
+           sp_entries s' ps' = Ok l' /\
+           Permutation (map sp_view l) (map sp_view l') /\ map sp_view l <> map sp_view l'.
+Proof. exact SearchTie.search_content_applies. Qed.
+Check C04_search_content_applies :
+  exists (s s' : gstate) (ps ps' : list (list nat)) (l l' : list sentry),
+           tie_fresh = Ok s /\
+           tie_edited = Ok s' /\
+           graph_to_paths true s = Ok ps /\
+           graph_to_paths true s' = Ok ps' /\
+           sp_entries s ps = Ok l /\
+           sp_entries s' ps' = Ok l' /\
+           Permutation (map sp_view l) (map sp_view l') /\ map sp_view l <> map sp_view l'.
+Print Assumptions C04_search_content_applies.
+
+Theorem C04_search_order_antisym :
+  forall x y : sview, sv_le x y = true -> sv_le y x = true -> x = y.
+Proof. exact Determinism2.sv_le_antisym. Qed.
+Check C04_search_order_antisym :
+  forall x y : sview, sv_le x y = true -> sv_le y x = true -> x = y.
+Print Assumptions C04_search_order_antisym.
+
+Theorem C04_search_ties :
+  forall x y : sentry, eqv sp_le x y = true <-> sp_view x = sp_view y.
+Proof. exact Determinism2.sp_le_ties. Qed.
+Check C04_search_ties :
+  forall x y : sentry, eqv sp_le x y = true <-> sp_view x = sp_view y.
+Print Assumptions C04_search_ties.
+
+Theorem C04_search_sort_content :
+  forall l l' : list sentry,
+         Permutation (map sp_view l) (map sp_view l') ->
+         map sp_view (stable_sort sp_le l) = map sp_view (stable_sort sp_le l').
+Proof. exact Determinism2.search_sort_content. Qed.
+Check C04_search_sort_content :
+  forall l l' : list sentry,
+         Permutation (map sp_view l) (map sp_view l') ->
+         map sp_view (stable_sort sp_le l) = map sp_view (stable_sort sp_le l').
+Print Assumptions C04_search_sort_content.
+
